@@ -21,6 +21,11 @@ RULE = (
     "its registered class through from_tag, children, get_elements, get_element, xpath, parent, root descent, clone + descent "
     "and XmlPart load of the serialised document. Non-trivial = instance built with >= 2 non-default arguments; registry "
     "enumeration exhaustive; distinct by (class, arguments)."
+    ' Also: re-parse of the same infoset written with non-canonical namespace prefixes; wrappers whose tag was rewritten (t'
+    'ag setter, set_reference_mark_end) dispatch on the current tag through clone/children/get_element/from_tag; comments a'
+    'nd PIs between elements hide nothing; List(list_content=) in every iterable shape incl. one-shot iterators; a Style fa'
+    'mily changed on an inspected wrapper agrees with the re-parse of its XML; several annotations in one document read the'
+    'ir own creator/date.'
 )
 ASSUMPTIONS = [
     "an argument is compared with the equally named property only where that property is attribute-backed or listed in OBSERVE; "
